@@ -5,10 +5,7 @@
    whole value back through them) return the components of the value.
 
    Spec vocabulary used by Props/C02.v (defined here, all small):
-     [ty_depth t]     nesting depth of a type (1 for the basic types); the fuel [read_val] needs.
-     [union_content none opts sel ov]   what UnionView.Value returns for the value
-                      [VUnion sel ov]: the selected option type paired with the content value,
-                      or None for the None option. *)
+     [ty_depth t]     nesting depth of a type (1 for the basic types); the fuel [read_val] needs. *)
 From Coq Require Import PeanoNat ZArith ZifyN ZifyNat ZifyBool.
 From Ztyp Require Import Base Bitlen Tree Types Spec View Iter Repr.
 From Ztyp Require Import BitlenProofs MerkleProofs SizeProofs ReprProofs IterProofs.
@@ -736,4 +733,1134 @@ Proof.
     rewrite mul64_small by lia. rewrite sum_lens_spec by lia.
     rewrite wrap64_small by lia. f_equal. lia.
 Qed.
+Lemma basic_or_fixed e : is_basic_elem e || spec_is_fixed e = spec_is_fixed e.
+Proof. destruct e; reflexivity. Qed.
+
+Lemma list_depth e k : view_depth (TList e k) = contents_depth (TList e k) + 1.
+Proof. reflexivity. Qed.
+
+Lemma bl_list e k : bl_stmt e -> bl_stmt (TList e k).
+Proof.
+  intros IH Hwf Hs Hf v n Ht Hr Hl. rewrite byte_len_list, info_fixed_flag, basic_or_fixed.
+  dval v Ht.
+  cbn [has_type] in Ht. apply andb_true_iff in Ht. destruct Ht as [Hlen Hty].
+  apply N.leb_le in Hlen. fold (lenN vs) in Hlen.
+  cbn [wf_ty] in Hwf.
+  pose proof (small_contents_depth _ Hs) as Hd. cbv beta iota in Hd.
+  cbn [small_params] in Hs. apply andb_true_iff in Hs. destruct Hs as [Hk Hse]. apply N.leb_le in Hk.
+  cbn [small_fields] in Hf.
+  pose proof pow56_lt as H56. rewrite pow64 in Hl.
+  rewrite repr_list in Hr. destruct Hr as (c & -> & Hr).
+  rewrite (list_length_len_leaf k c (lenN vs) Hlen) by (rewrite pow64; lia). cbn [bind].
+  rewrite spec_ser_list in *.
+  destruct (spec_is_fixed e) eqn:Hfx.
+  - rewrite series_lenN_fixed in *.
+    assert (HF : Forall (fun x => lenN (spec_ser e x) = ti_size (info e)) vs).
+    { apply Forall_forall. intros x Hin. rewrite forallb_forall in Hty. symmetry.
+      apply fixed_size; auto.
+      pose proof (sumN_map_In_le (fun x => lenN (spec_ser e x)) vs x Hin). cbv beta in *.
+      rewrite pow64. lia. }
+    rewrite (sumN_map_const _ _ _ HF) in *. now rewrite mul64_small by lia.
+  - rewrite (not_fixed_not_basic e Hfx) in Hr. rewrite series_lenN_var in *.
+    destruct (series_elems_iter e _ vs c Hr) as (ms & Hms & HF).
+    { rewrite cdepth_N. lia. }
+    rewrite cdepth_N in Hms. cbn [node_left bind]. rewrite Hms. cbn [bind].
+    rewrite (elems_byte_len e vs ms IH Hwf Hse Hf Hty HF) by (rewrite pow64; lia). cbn [bind].
+    rewrite mul64_small by lia. rewrite sum_lens_spec by lia.
+    rewrite wrap64_small by lia. f_equal. lia.
+Qed.
+
+(* ---- containers ---- *)
+
+Lemma bl_fields_cons d n f fs i acc :
+  bl_fields d n (f :: fs) i acc =
+  if ti_fixed (info f) then bl_fields d n fs (i + 1) (add64 acc (ti_size (info f)))
+  else
+    do g <- to_gindex64 i d;
+    do c <- getter n g;
+    do l <- byte_len f c;
+    bl_fields d n fs (i + 1) (add64 acc (add64 l 4)).
+Proof. reflexivity. Qed.
+
+Lemma rfields_repr_length : forall fs vs, has_type_fields fs vs = true ->
+  length (rfields_repr zh fs vs) = length fs.
+Proof.
+  induction fs as [|f fs IH]; intros [|x vs] Ht; try discriminate Ht; [reflexivity|].
+  cbn [has_type_fields] in Ht. apply andb_true_iff in Ht. cbn [rfields_repr length].
+  now rewrite IH.
+Qed.
+
+Lemma cont_depth fs : view_depth (TContainer fs) = contents_depth (TContainer fs).
+Proof. unfold view_depth. cbn [is_list_ty]. lia. Qed.
+
+(* the field nodes of a representing container tree *)
+Lemma cont_nodes fs vs n :
+  small_params (TContainer fs) = true -> small_fields (TContainer fs) = true ->
+  has_type (VCont vs) (TContainer fs) = true -> repr zh (TContainer fs) n (VCont vs) ->
+  exists ms, node_iter_all n (N.of_nat (length fs)) (view_depth (TContainer fs)) = OK ms /\
+             Forall2 (fun (p : node -> Prop) m => p m) (rfields_repr zh fs vs) ms /\
+             forall j m, nth_error ms j = Some m ->
+                         get_node (TContainer fs) n (N.of_nat j) = OK m.
+Proof.
+  intros Hs Hf Ht Hr. pose proof (view_depth_lt64 _ Hs Hf) as Hd.
+  rewrite repr_cont in Hr. rewrite SizeProofs.has_type_cont in Ht.
+  pose proof (series_length zh _ _ _ Hr) as Hlen.
+  assert (Hcd : N.of_nat (cdepth (TContainer fs)) = view_depth (TContainer fs))
+    by (rewrite cdepth_N, cont_depth; reflexivity).
+  rewrite Hcd in Hlen.
+  destruct (series_iter zh _ _ n Hr) as (ms & Hms & HF); [rewrite Hcd; exact Hd|].
+  rewrite Hcd in Hms. unfold lenN in Hms, Hlen. rewrite rfields_repr_length in Hms, Hlen by exact Ht.
+  exists ms. split; [exact Hms|]. split; [exact HF|].
+  intros j m Hj.
+  destruct (node_iter_sound n _ _ ms j m Hd Hms Hj) as [Hb Hlt].
+  rewrite get_node_bottom by (try exact Hd; lia). exact Hb.
+Qed.
+
+Lemma bl_fields_spec t n : forall fs vs ms i acc,
+  Forall bl_stmt fs -> forallb wf_ty fs = true -> forallb small_params fs = true ->
+  forallb small_fields fs = true -> has_type_fields fs vs = true ->
+  Forall2 (fun (p : node -> Prop) m => p m) (rfields_repr zh fs vs) ms ->
+  (forall j m, nth_error ms j = Some m -> get_node t n (i + N.of_nat j) = OK m) ->
+  sumN (map part_len (ser_fields fs vs)) < 2 ^ 64 -> acc < two64 ->
+  bl_fields (view_depth t) n fs i acc = OK (wrap64 (acc + sumN (map part_len (ser_fields fs vs)))).
+Proof.
+  induction fs as [|f fs IHfs]; intros vs ms i acc HIH Hwf Hs Hf Ht HF Hget Hl Hacc.
+  - destruct vs; [|discriminate Ht]. cbn [ser_fields map sumN fold_right].
+    rewrite N.add_0_r, wrap64_small by exact Hacc. reflexivity.
+  - destruct vs as [|x vs]; [discriminate Ht|].
+    cbn [has_type_fields] in Ht. apply andb_true_iff in Ht. destruct Ht as [Htx Ht].
+    cbn [forallb] in Hwf, Hs, Hf. apply andb_true_iff in Hwf, Hs, Hf.
+    destruct Hwf as [Hwfx Hwf]. destruct Hs as [Hsx Hs]. destruct Hf as [Hfx Hf].
+    inversion HIH as [|? ? IHx HIH']; subst.
+    cbn [rfields_repr] in HF. inversion HF as [|? m ? ms' Hrm HF']; subst.
+    cbn [ser_fields map] in *. rewrite sumN_cons in *.
+    unfold part_len at 1 in Hl. unfold part_len at 1. cbn [fst snd] in *.
+    rewrite bl_fields_cons, info_fixed_flag.
+    assert (Hget' : forall j m0, nth_error ms' j = Some m0 ->
+                                 get_node t n (i + 1 + N.of_nat j) = OK m0).
+    { intros j m0 Hj. specialize (Hget (S j) m0 Hj).
+      replace (i + 1 + N.of_nat j) with (i + N.of_nat (S j)) by lia. exact Hget. }
+    destruct (spec_is_fixed f) eqn:Hfix.
+    + rewrite (fixed_size f x Hfix Hsx Htx) by lia.
+      rewrite (IHfs vs ms' (i + 1) _ HIH' Hwf Hs Hf Ht HF' Hget') by (try apply wrap64_lt; lia).
+      unfold add64. rewrite wrap64_add_l. do 2 f_equal. lia.
+    + specialize (Hget 0%nat m eq_refl). change (N.of_nat 0) with 0 in Hget.
+      rewrite N.add_0_r in Hget. unfold get_node in Hget.
+      destruct (to_gindex64 i (view_depth t)) as [g| |]; try discriminate Hget.
+      cbn [bind] in *. rewrite Hget. cbn [bind].
+      rewrite (IHx Hwfx Hsx Hfx x m Htx Hrm) by lia. cbn [bind].
+      rewrite (IHfs vs ms' (i + 1) _ HIH' Hwf Hs Hf Ht HF' Hget') by (try apply wrap64_lt; lia).
+      unfold add64. rewrite wrap64_add_r, wrap64_add_l. do 2 f_equal. lia.
+Qed.
+
+Lemma bl_cont fs : Forall bl_stmt fs -> bl_stmt (TContainer fs).
+Proof.
+  intros IH Hwf Hs Hf v n Ht Hr Hl. rewrite byte_len_cont, info_fixed_flag.
+  destruct (spec_is_fixed (TContainer fs)) eqn:Hfx.
+  - f_equal. now apply fixed_size.
+  - dval v Ht.
+    destruct (cont_nodes fs vs n Hs Hf Ht Hr) as (ms & _ & HF & Hget).
+    rewrite SizeProofs.has_type_cont in Ht. rewrite spec_ser_cont, ser_parts_lenN in *.
+    cbn [wf_ty] in Hwf. apply andb_true_iff in Hwf. destruct Hwf as [_ Hwf].
+    cbn [small_params] in Hs. cbn [small_fields] in Hf. apply andb_true_iff in Hf.
+    destruct Hf as [_ Hf].
+    rewrite (bl_fields_spec (TContainer fs) n fs vs ms 0 0 IH Hwf Hs Hf Ht HF); try assumption.
+    + rewrite N.add_0_l, wrap64_small by (rewrite <- pow64; exact Hl). reflexivity.
+    + rewrite <- pow64. lia.
+Qed.
+
+Lemma bl_union none opts : Forall bl_stmt opts -> bl_stmt (TUnion none opts).
+Proof.
+  intros IH Hwf Hs Hf v n Ht Hr Hl. dval v Ht.
+  destruct (union_sel_range none opts sel v Hwf Ht) as [Hsel Hcnt].
+  rewrite repr_union in Hr. destruct Hr as (c & -> & Hr).
+  destruct (sel_leaf sel ltac:(lia)) as [Hz Hhd].
+  rewrite byte_len_union, Hz, Hhd. cbn [negb]. cbv zeta.
+  rewrite wrap8_small by lia. rewrite (proj2 (N.leb_gt _ _) Hsel).
+  rewrite spec_ser_union' in *.
+  destruct (union_cases zh none opts sel v c Ht Hr) as [(Hn & -> & _)|(Hn & o & x & -> & Hk & Htx & Hrx)];
+    rewrite Hn; [reflexivity|].
+  rewrite !rpick_nth_error, Hk in *.
+  pose proof (nth_error_In _ _ Hk) as Hin.
+  cbn [wf_ty] in Hwf. rewrite !andb_true_iff in Hwf. destruct Hwf as [_ Hwf].
+  cbn [small_params] in Hs. cbn [small_fields] in Hf.
+  rewrite forallb_forall in Hwf, Hs, Hf. rewrite Forall_forall in IH.
+  rewrite lenN_cons in *.
+  rewrite (IH o Hin (Hwf o Hin) (Hs o Hin) (Hf o Hin) x c Htx Hrx) by lia. cbn [bind].
+  unfold add64. rewrite wrap64_small by (rewrite <- pow64; lia). f_equal. lia.
+Qed.
+
+Theorem byte_len_spec : forall t v n,
+  wf_ty t = true -> small_params t = true -> small_fields t = true ->
+  has_type v t = true -> repr zh t n v -> lenN (spec_ser t v) < 2 ^ 64 ->
+  byte_len t n = OK (lenN (spec_ser t v)).
+Proof.
+  intros t. induction t using ty_nind; intros v n0 Hwf Hs Hf Ht Hr Hl.
+  - now apply bl_uint.
+  - now apply bl_bool.
+  - now apply bl_bytes.
+  - now apply bl_root.
+  - now apply bl_bitvector.
+  - now apply bl_bitlist.
+  - apply bl_vector; try assumption. intros ? ? ? ? ? ? ? ?. now apply IHt.
+  - apply bl_list; try assumption. intros ? ? ? ? ? ? ? ?. now apply IHt.
+  - apply bl_cont; try assumption. eapply Forall_impl; [|exact H].
+    intros f Hfld ? ? ? ? ? ? ? ?. now apply Hfld.
+  - apply bl_union; try assumption. eapply Forall_impl; [|exact H].
+    intros f Hfld ? ? ? ? ? ? ? ?. now apply Hfld.
+Qed.
+
 End ByteLen.
+
+(* ------------------------------------------------------------------------------------ *)
+(** * 8. Serialize *)
+
+Lemma two32_lt64 : two32 < two64.
+Proof. now vm_compute. Qed.
+
+Lemma uint_width_le32 w : uint_width_ok w = true -> 1 <= w <= 32.
+Proof.
+  unfold uint_width_ok. rewrite !orb_true_iff, !N.eqb_eq. lia.
+Qed.
+
+Section Ser.
+Variable zh : nat -> chunk.
+
+Definition ser_stmt (t : ty) : Prop :=
+  wf_ty t = true -> small_params t = true -> small_fields t = true ->
+  forall v n, has_type v t = true -> repr zh t n v -> lenN (spec_ser t v) < 2 ^ 32 ->
+  ser_node t n = OK (spec_ser t v).
+
+Lemma ser_uint w : ser_stmt (TUint w).
+Proof.
+  intros Hwf _ _ v nd Ht Hr _. dval v Ht. cbn [repr] in Hr. subst nd.
+  cbn [wf_ty] in Hwf. cbn [ser_node spec_ser]. rewrite Hwf.
+  pose proof (uint_width_le32 w Hwf). f_equal. apply firstn_pad32.
+  - apply le_bytes_length.
+  - unfold nat_of. lia.
+Qed.
+
+Lemma ser_bool : ser_stmt TBool.
+Proof.
+  intros _ _ _ v n Ht Hr _. dval v Ht. cbn [repr] in Hr. subst n. destruct b; reflexivity.
+Qed.
+
+Lemma ser_bytes k : ser_stmt (TBytes k).
+Proof.
+  intros Hwf _ _ v n Ht Hr _. dval v Ht. cbn [repr] in Hr. subst n.
+  cbn [has_type] in Ht. apply N.eqb_eq in Ht.
+  cbn [wf_ty] in Hwf. apply andb_true_iff in Hwf. destruct Hwf as [H1 H32]. apply N.leb_le in H32.
+  cbn [ser_node spec_ser]. rewrite (proj2 (N.ltb_ge 32 k) H32). f_equal.
+  apply firstn_pad32; unfold nat_of; lia.
+Qed.
+
+Lemma ser_root : ser_stmt TRoot.
+Proof.
+  intros _ _ _ v n Ht Hr _. dval v Ht. cbn [repr] in Hr. subst n.
+  cbn [has_type] in Ht. apply N.eqb_eq in Ht.
+  cbn [ser_node spec_ser]. f_equal. apply pad32_full. lia.
+Qed.
+
+Lemma ser_bitvector k : ser_stmt (TBitvector k).
+Proof.
+  intros _ Hs _ v n Ht Hr Hl.
+  pose proof (fixed_size (TBitvector k) v eq_refl Hs Ht) as Hsz.
+  pose proof (small_contents_depth _ Hs) as Hd. cbv beta iota in Hd.
+  dval v Ht. cbn [has_type] in Ht. apply N.eqb_eq in Ht. fold (lenN bs) in Ht.
+  cbn [small_params] in Hs. apply N.leb_le in Hs.
+  cbn [repr] in Hr. unfold bit_chunks in Hr.
+  cbn [ser_node spec_ser] in *.
+  apply (sib_chunks zh (cdepth (TBitvector k)) _ n); try exact Hr.
+  - rewrite cdepth_N. unfold view_depth. cbn [is_list_ty]. lia.
+  - unfold view_depth. cbn [is_list_ty]. lia.
+  - rewrite bits_bottom_count_spec by exact Hs. fold (bit_chunks bs). now rewrite bit_chunks_lenN, Ht.
+  - apply Hsz. pose proof two32_lt64. rewrite pow64. rewrite <- two32_eq in Hl. lia.
+Qed.
+
+Lemma ser_bitlist k : ser_stmt (TBitlist k).
+Proof.
+  intros _ Hs _ v n Ht Hr Hl.
+  pose proof (small_contents_depth _ Hs) as Hd. cbv beta iota in Hd.
+  dval v Ht. cbn [has_type] in Ht. apply N.leb_le in Ht. fold (lenN bs) in Ht.
+  cbn [small_params] in Hs. apply N.leb_le in Hs.
+  cbn [repr] in Hr. destruct Hr as (c & -> & Hr). unfold bit_chunks in Hr.
+  pose proof small_plus8 as H56.
+  assert (H255 : lenN bs + 255 < two64).
+  { rewrite <- pow64 in *. change (2 ^ 64) with (2 ^ 56 * 256) in *.
+    pose proof (pow2_pos 56). lia. }
+  cbn [ser_node node_left bind].
+  rewrite (list_length_len_leaf k c (lenN bs) Ht) by (rewrite pow64; lia). cbn [bind].
+  rewrite (sib_chunks_gen zh (cdepth (TBitlist k)) (bits_to_bytes bs) c _ _ _ Hr).
+  - cbn [bind spec_ser]. unfold ser_bitlist. f_equal.
+    destruct (concat_chunkify (bits_to_bytes bs)) as (m & ->).
+    rewrite wrap64_small by lia.
+    replace (nat_of ((lenN bs + 8) / 8)) with (length bs / 8 + 1)%nat by (unfold nat_of, lenN; lia).
+    apply bitlist_bytes.
+  - now rewrite cdepth_N.
+  - lia.
+  - rewrite wrap64_small, shiftr8 by lia. fold (bit_chunks bs). now rewrite bit_chunks_lenN.
+  - rewrite wrap64_small by lia. rewrite bits_to_bytes_lenN. lia.
+Qed.
+
+Lemma elems_ser e vs ms :
+  ser_stmt e -> wf_ty e = true -> small_params e = true -> small_fields e = true ->
+  forallb (fun x => has_type x e) vs = true ->
+  Forall2 (fun x m => repr zh e m x) vs ms ->
+  sumN (map (fun x => lenN (spec_ser e x)) vs) < 2 ^ 32 ->
+  mapM (ser_node e) ms = OK (map (spec_ser e) vs).
+Proof.
+  intros IH Hwf Hs Hf Hty HF Hsum. rewrite forallb_forall in Hty.
+  apply (mapM_F2 _ _ _ _ _ HF). intros x m Hin Hr.
+  apply IH; auto.
+  pose proof (sumN_map_In_le (fun x => lenN (spec_ser e x)) vs x Hin). cbv beta in *. lia.
+Qed.
+
+(* a packed series: SubtreeIntoBytes over the chunks of the concatenated encodings *)
+Lemma packed_ser w d vs c L :
+  uint_width_ok w = true -> L <= 2 ^ 56 -> lenN vs = L ->
+  forallb (fun x => has_type x (TUint w)) vs = true ->
+  series zh d (map is_chunk (packed_chunks (TUint w) vs)) c -> N.of_nat d < 64 ->
+  subtree_into_bytes c (N.of_nat d) (bottom_count (TUint w) L) (L * w) =
+  OK (concat (map (spec_ser (TUint w)) vs)).
+Proof.
+  intros Hw HL Hlen Hty Hs Hd. unfold packed_chunks in Hs.
+  rewrite <- flat_map_concat_map.
+  pose proof (lenN_flat_map_uint w vs Hty) as HB.
+  apply (sib_chunks zh d _ c); try exact Hs; try reflexivity; try exact Hd.
+  - rewrite bottom_count_uint by assumption. unfold chunk_count_basic. cbn [spec_fixed_len].
+    now rewrite chunkify_lenN, HB, Hlen.
+  - now rewrite HB, Hlen.
+Qed.
+
+Lemma ser_vector e k : ser_stmt e -> ser_stmt (TVector e k).
+Proof.
+  intros IH Hwf Hs Hf v n Ht Hr Hl. rewrite ser_node_vector.
+  pose proof two32_lt64 as H3264. rewrite <- two32_eq in Hl.
+  assert (Hl64 : lenN (spec_ser (TVector e k) v) < 2 ^ 64) by (rewrite pow64; lia).
+  pose proof (small_contents_depth _ Hs) as Hd. cbv beta iota in Hd.
+  destruct (is_basic_elem e) eqn:Hb.
+  - destruct e; try discriminate Hb.
+    pose proof (fixed_size (TVector (TUint w) k) v eq_refl Hs Ht Hl64) as Hsz.
+    dval v Ht.
+    cbn [has_type] in Ht. apply andb_true_iff in Ht. destruct Ht as [Hlen Hty].
+    apply N.eqb_eq in Hlen. fold (lenN vs) in Hlen.
+    cbn [wf_ty] in Hwf. apply andb_true_iff in Hwf. destruct Hwf as [_ Hw].
+    cbn [small_params] in Hs. apply andb_true_iff in Hs. destruct Hs as [Hk _]. apply N.leb_le in Hk.
+    rewrite repr_vector in Hr. cbn [is_basic_elem] in Hr.
+    rewrite spec_ser_vector in *. cbn [spec_is_fixed] in *. rewrite ser_parts_fixed in *.
+    rewrite vec_depth, <- cdepth_N, Hsz. subst k.
+    rewrite <- flat_map_concat_map, (lenN_flat_map_uint w vs Hty), flat_map_concat_map.
+    apply packed_ser; try assumption; try reflexivity. rewrite cdepth_N. lia.
+  - dval v Ht.
+    cbn [has_type] in Ht. apply andb_true_iff in Ht. destruct Ht as [Hlen Hty].
+    apply N.eqb_eq in Hlen. fold (lenN vs) in Hlen.
+    cbn [wf_ty] in Hwf. apply andb_true_iff in Hwf. destruct Hwf as [_ Hwfe].
+    cbn [small_params] in Hs. apply andb_true_iff in Hs. destruct Hs as [Hk Hse]. apply N.leb_le in Hk.
+    cbn [small_fields] in Hf.
+    rewrite repr_vector, Hb in Hr.
+    destruct (series_elems_iter zh e _ vs n Hr) as (ms & Hms & HF).
+    { rewrite cdepth_N. lia. }
+    rewrite cdepth_N, Hlen in Hms. rewrite vec_depth, Hms. cbn [bind].
+    rewrite info_fixed_flag. cbn [spec_is_fixed]. rewrite spec_ser_vector in *.
+    destruct (spec_is_fixed e) eqn:Hfx.
+    + rewrite series_lenN_fixed in Hl. rewrite ser_parts_fixed.
+      rewrite (elems_ser e vs ms IH Hwfe Hse Hf Hty HF) by (rewrite <- two32_eq; lia).
+      reflexivity.
+    + rewrite series_lenN_var in Hl.
+      rewrite (elems_byte_len zh e vs ms (fun a b c v n => byte_len_spec zh e v n a b c)
+                 Hwfe Hse Hf Hty HF) by (rewrite pow64; lia).
+      cbn [bind].
+      destruct (ser_parts_var (spec_ser e) vs ltac:(lia)) as (offs & Hoffs & ->).
+      rewrite mul64_small by lia. rewrite <- Hlen, N.mul_comm, Hoffs. cbn [bind].
+      rewrite (elems_ser e vs ms IH Hwfe Hse Hf Hty HF) by (rewrite <- two32_eq; lia).
+      reflexivity.
+Qed.
+
+Lemma ser_list e k : ser_stmt e -> ser_stmt (TList e k).
+Proof.
+  intros IH Hwf Hs Hf v n Ht Hr Hl. rewrite ser_node_list.
+  pose proof two32_lt64 as H3264. rewrite <- two32_eq in Hl.
+  pose proof (small_contents_depth _ Hs) as Hd. cbv beta iota in Hd.
+  pose proof pow56_lt as H56.
+  dval v Ht.
+  cbn [has_type] in Ht. apply andb_true_iff in Ht. destruct Ht as [Hlen Hty].
+  apply N.leb_le in Hlen. fold (lenN vs) in Hlen.
+  cbn [wf_ty] in Hwf.
+  cbn [small_params] in Hs. apply andb_true_iff in Hs. destruct Hs as [Hk Hse]. apply N.leb_le in Hk.
+  cbn [small_fields] in Hf.
+  rewrite repr_list in Hr. destruct Hr as (c & -> & Hr).
+  rewrite (list_length_len_leaf k c (lenN vs) Hlen) by (rewrite pow64; lia).
+  cbn [node_left bind]. rewrite spec_ser_list in *.
+  destruct (is_basic_elem e) eqn:Hb.
+  - destruct e; try discriminate Hb. cbn [spec_is_fixed] in *. rewrite ser_parts_fixed in *.
+    cbv zeta. cbn [info ti_size].
+    change (wrap64 (lenN vs + 32 / w - 1) / (32 / w)) with (bottom_count (TUint w) (lenN vs)).
+    pose proof Hl as Hl'.
+    rewrite <- flat_map_concat_map, (lenN_flat_map_uint w vs Hty) in Hl'.
+    rewrite mul64_small by lia. rewrite <- cdepth_N.
+    apply packed_ser; try assumption; try reflexivity; try lia. rewrite cdepth_N. lia.
+  - destruct (series_elems_iter zh e _ vs c Hr) as (ms & Hms & HF).
+    { rewrite cdepth_N. lia. }
+    rewrite cdepth_N in Hms. rewrite Hms. cbn [bind].
+    rewrite info_fixed_flag.
+    destruct (spec_is_fixed e) eqn:Hfx.
+    + rewrite series_lenN_fixed in Hl. rewrite ser_parts_fixed.
+      rewrite (elems_ser e vs ms IH Hwf Hse Hf Hty HF) by (rewrite <- two32_eq; lia).
+      reflexivity.
+    + rewrite series_lenN_var in Hl.
+      rewrite (elems_byte_len zh e vs ms (fun a b c v n => byte_len_spec zh e v n a b c)
+                 Hwf Hse Hf Hty HF) by (rewrite pow64; lia).
+      cbn [bind].
+      destruct (ser_parts_var (spec_ser e) vs ltac:(lia)) as (offs & Hoffs & ->).
+      rewrite mul64_small by lia. rewrite N.mul_comm, Hoffs. cbn [bind].
+      rewrite (elems_ser e vs ms IH Hwf Hse Hf Hty HF) by (rewrite <- two32_eq; lia).
+      reflexivity.
+Qed.
+
+(* ---- containers: the two-phase layout ---- *)
+Lemma ser_fields_go_spec : forall fs vs ms po ps fixed dyn,
+  Forall ser_stmt fs -> forallb wf_ty fs = true -> forallb small_params fs = true ->
+  forallb small_fields fs = true -> has_type_fields fs vs = true ->
+  Forall2 (fun (p : node -> Prop) m => p m) (rfields_repr zh fs vs) ms ->
+  Forall (fun p : part => lenN (snd p) < two32) (ser_fields fs vs) ->
+  po + ps + sumN (map var_len (ser_fields fs vs)) < two32 ->
+  ser_fields_go fs ms po ps fixed dyn =
+  OK ((fixed ++ fst (ser_parts_go (ser_fields fs vs) (po + ps))) ++
+      (dyn ++ snd (ser_parts_go (ser_fields fs vs) (po + ps)))).
+Proof.
+  induction fs as [|f fs IHfs]; intros vs ms po ps fixed dyn HIH Hwf Hs Hf Ht HF Hall Hb.
+  - destruct vs; [|discriminate Ht]. cbn [rfields_repr] in HF. inversion HF; subst.
+    cbn [ser_fields_go ser_fields ser_parts_go fst snd]. now rewrite !app_nil_r.
+  - destruct vs as [|x vs]; [discriminate Ht|].
+    cbn [has_type_fields] in Ht. apply andb_true_iff in Ht. destruct Ht as [Htx Ht].
+    cbn [forallb] in Hwf, Hs, Hf. apply andb_true_iff in Hwf, Hs, Hf.
+    destruct Hwf as [Hwfx Hwf]. destruct Hs as [Hsx Hs]. destruct Hf as [Hfx Hf].
+    inversion HIH as [|? ? IHx HIH']; subst.
+    cbn [rfields_repr] in HF. inversion HF as [|? m ? ms' Hrm HF']; subst.
+    cbn [ser_fields map] in *. rewrite sumN_cons in Hb.
+    inversion Hall as [|? ? Hlx Hall']; subst. cbn [snd] in Hlx.
+    unfold var_len at 1 in Hb. cbn [fst snd] in Hb.
+    cbn [ser_fields_go]. rewrite info_fixed_flag.
+    pose proof two32_lt64 as H3264.
+    rewrite (IHx Hwfx Hsx Hfx x m Htx Hrm) by (rewrite <- two32_eq; exact Hlx). cbn [bind].
+    destruct (spec_is_fixed f) eqn:Hfix.
+    + rewrite (IHfs vs ms' po ps _ dyn HIH' Hwf Hs Hf Ht HF' Hall') by lia.
+      cbn [ser_parts_go].
+      destruct (ser_parts_go (ser_fields fs vs) (po + ps)) as [F V]. cbn [fst snd].
+      now rewrite <- !app_assoc.
+    + rewrite (byte_len_spec zh f x m Hwfx Hsx Hfx Htx Hrm) by (rewrite pow64; lia). cbn [bind].
+      unfold write_offset.
+      rewrite (proj2 (N.leb_gt two32 po)) by lia.
+      rewrite (proj2 (N.leb_gt two32 ps)) by lia.
+      rewrite (proj2 (N.leb_gt two32 (po + ps))) by lia. cbn [bind].
+      rewrite (IHfs vs ms' (po + ps) (lenN (spec_ser f x)) _ _ HIH' Hwf Hs Hf Ht HF' Hall') by lia.
+      cbn [ser_parts_go].
+      destruct (ser_parts_go (ser_fields fs vs) (po + ps + lenN (spec_ser f x))) as [F V].
+      cbn [fst snd]. now rewrite <- !app_assoc.
+Qed.
+
+Lemma ser_fields_len_all : forall ps : list part, sumN (map part_len ps) < two32 ->
+  Forall (fun p : part => lenN (snd p) < two32) ps.
+Proof.
+  induction ps as [|p ps IH]; intros Hb; constructor.
+  - cbn [map] in Hb. rewrite sumN_cons in Hb. unfold part_len in Hb. destruct (fst p); lia.
+  - apply IH. cbn [map] in Hb. rewrite sumN_cons in Hb. lia.
+Qed.
+
+Lemma ser_cont fs : Forall ser_stmt fs -> ser_stmt (TContainer fs).
+Proof.
+  intros IH Hwf Hs Hf v n Ht Hr Hl. rewrite ser_node_cont.
+  pose proof two32_lt64 as H3264. rewrite <- two32_eq in Hl.
+  dval v Ht.
+  destruct (cont_nodes zh fs vs n Hs Hf Ht Hr) as (ms & Hms & HF & _).
+  rewrite Hms. cbn [bind].
+  rewrite SizeProofs.has_type_cont in Ht. rewrite spec_ser_cont in *. rewrite ser_parts_lenN in Hl.
+  cbn [wf_ty] in Hwf. apply andb_true_iff in Hwf. destruct Hwf as [_ Hwf].
+  cbn [small_params] in Hs. cbn [small_fields] in Hf. apply andb_true_iff in Hf.
+  destruct Hf as [_ Hf].
+  pose proof (fixed_part_spec fs vs Hs Ht ltac:(rewrite pow64; lia)) as Hfp.
+  pose proof (sum_part_len_split (ser_fields fs vs)) as Hsplit.
+  rewrite (ser_fields_go_spec fs vs ms _ 0 [] [] IH Hwf Hs Hf Ht HF).
+  - unfold ser_parts. rewrite N.add_0_r, Hfp.
+    destruct (ser_parts_go (ser_fields fs vs) _) as [F V]. reflexivity.
+  - now apply ser_fields_len_all.
+  - lia.
+Qed.
+
+Lemma ser_union none opts : Forall ser_stmt opts -> ser_stmt (TUnion none opts).
+Proof.
+  intros IH Hwf Hs Hf v n Ht Hr Hl. dval v Ht.
+  destruct (union_sel_range none opts sel v Hwf Ht) as [Hsel Hcnt].
+  rewrite repr_union in Hr. destruct Hr as (c & -> & Hr).
+  destruct (sel_leaf sel ltac:(lia)) as [Hz Hhd].
+  rewrite ser_node_union, Hz, Hhd. cbn [negb]. cbv zeta.
+  rewrite wrap8_small by lia. rewrite (proj2 (N.leb_gt _ _) Hsel).
+  rewrite spec_ser_union' in *.
+  destruct (union_cases zh none opts sel v c Ht Hr) as [(Hn & -> & _)|(Hn & o & x & -> & Hk & Htx & Hrx)];
+    rewrite Hn; [reflexivity|].
+  rewrite !rpick_nth_error, Hk in *.
+  pose proof (nth_error_In _ _ Hk) as Hin.
+  cbn [wf_ty] in Hwf. rewrite !andb_true_iff in Hwf. destruct Hwf as [_ Hwf].
+  cbn [small_params] in Hs. cbn [small_fields] in Hf.
+  rewrite forallb_forall in Hwf, Hs, Hf. rewrite Forall_forall in IH.
+  rewrite lenN_cons in *.
+  rewrite (IH o Hin (Hwf o Hin) (Hs o Hin) (Hf o Hin) x c Htx Hrx) by lia. reflexivity.
+Qed.
+
+Theorem ser_node_spec : forall t v n,
+  wf_ty t = true -> small_params t = true -> small_fields t = true ->
+  has_type v t = true -> repr zh t n v -> lenN (spec_ser t v) < 2 ^ 32 ->
+  ser_node t n = OK (spec_ser t v).
+Proof.
+  intros t. induction t using ty_nind; intros v n0 Hwf Hs Hf Ht Hr Hl.
+  - now apply ser_uint.
+  - now apply ser_bool.
+  - now apply ser_bytes.
+  - now apply ser_root.
+  - now apply ser_bitvector.
+  - now apply ser_bitlist.
+  - apply ser_vector; try assumption. intros ? ? ? ? ? ? ? ?. now apply IHt.
+  - apply ser_list; try assumption. intros ? ? ? ? ? ? ? ?. now apply IHt.
+  - apply ser_cont; try assumption. eapply Forall_impl; [|exact H].
+    intros f Hfld ? ? ? ? ? ? ? ?. now apply Hfld.
+  - apply ser_union; try assumption. eapply Forall_impl; [|exact H].
+    intros f Hfld ? ? ? ? ? ? ? ?. now apply Hfld.
+Qed.
+
+End Ser.
+
+(* ------------------------------------------------------------------------------------ *)
+(** * 9. The typed getters on a representing tree *)
+
+Lemma got_step_val r v : got_step r = IVal v -> r = OK (GVal v).
+Proof. destruct r as [[x|t m]| |]; cbn [got_step]; congruence. Qed.
+
+Lemma In_map_IVal_err vals : ~ In IErr (map IVal vals).
+Proof. intros H. apply in_map_iff in H. destruct H as (x & Hx & _). discriminate Hx. Qed.
+
+Lemma Forall_map_IVal_comp vals : Forall (fun s => is_comp s = true) (map IVal vals).
+Proof. apply Forall_forall. intros s H. apply in_map_iff in H. destruct H as (x & <- & _). reflexivity. Qed.
+
+(* packed values / bits: the read-only iterator lists them, hence so do the getters (C17) *)
+Lemma get_vals t n vals len :
+  wf_ty t = true -> view_depth t < 64 ->
+  ro_iter t n 0 = map IVal vals ++ repeat IEnd 0 -> series_len t n = OK len ->
+  length vals = N.to_nat len /\
+  forall i, i < len -> view_get t n i = OK (GVal (nth (N.to_nat i) vals (VUint 0))).
+Proof.
+  intros Hwf Hd Hro Hlen.
+  destruct (repr_get_all_eq t n 0 (map IVal vals) len Hwf Hd Hro (In_map_IVal_err vals)
+              (Forall_map_IVal_comp vals) Hlen) as (Hget & _ & Hl).
+  rewrite map_length in Hl. split; [exact Hl|]. intros i Hi.
+  unfold get_all in Hget. rewrite Hlen in Hget. apply got_step_val.
+  assert (Hn : nth_error (map (fun i => got_step (view_get t n (N.of_nat i))) (seq 0 (nat_of len)))
+                         (N.to_nat i) = Some (got_step (view_get t n i))).
+  { rewrite nth_error_map, nth_error_seq0 by (unfold nat_of; lia). cbn [option_map].
+    now rewrite N2Nat.id. }
+  rewrite Hget, nth_error_map in Hn.
+  rewrite (nth_error_nth' vals (VUint 0)) in Hn by lia. cbn [option_map] in Hn. congruence.
+Qed.
+
+Section Getters.
+Variable zh : nat -> chunk.
+
+(* ---- length ---- *)
+Theorem length_bits k n bs :
+  small_params (TBitlist k) = true -> has_type (VBits bs) (TBitlist k) = true ->
+  repr zh (TBitlist k) n (VBits bs) -> list_length k n = OK (lenN bs).
+Proof.
+  intros Hs Ht Hr. cbn [has_type] in Ht. apply N.leb_le in Ht. fold (lenN bs) in Ht.
+  cbn [small_params] in Hs. apply N.leb_le in Hs. pose proof pow56_lt.
+  cbn [repr] in Hr. destruct Hr as (c & -> & _).
+  apply list_length_len_leaf; [exact Ht|rewrite pow64; lia].
+Qed.
+
+Theorem length_list e k n vs :
+  small_params (TList e k) = true -> has_type (VSeq vs) (TList e k) = true ->
+  repr zh (TList e k) n (VSeq vs) -> list_length k n = OK (lenN vs).
+Proof.
+  intros Hs Ht Hr. cbn [has_type] in Ht. apply andb_true_iff in Ht. destruct Ht as [Ht _].
+  apply N.leb_le in Ht. fold (lenN vs) in Ht.
+  cbn [small_params] in Hs. apply andb_true_iff in Hs. destruct Hs as [Hs _].
+  apply N.leb_le in Hs. pose proof pow56_lt.
+  rewrite repr_list in Hr. destruct Hr as (c & -> & _).
+  apply list_length_len_leaf; [exact Ht|rewrite pow64; lia].
+Qed.
+
+Lemma view_depth_nc t : small_params t = true ->
+  match t with TContainer _ => False | _ => True end -> view_depth t < 64.
+Proof. intros Hs Hc. apply small_view_depth; [exact Hs|]. intros fs ->. contradiction. Qed.
+
+Lemma check_index_err t n ll i : list_length (list_limit t) n = OK ll -> ll <= i ->
+  check_index t n i = Err.
+Proof.
+  intros Hl Hi. unfold check_index. rewrite Hl. cbn [bind].
+  now rewrite (proj2 (N.leb_le ll i) Hi).
+Qed.
+
+(* ---- bits ---- *)
+Theorem get_bit t bs n i :
+  wf_ty t = true -> small_params t = true -> has_type (VBits bs) t = true ->
+  repr zh t n (VBits bs) ->
+  view_get t n i =
+  if i <? lenN bs then OK (GVal (VBool (nth (N.to_nat i) bs false))) else Err.
+Proof.
+  intros Hwf Hs Ht Hr.
+  assert (Hnth : forall j, (j < length bs)%nat ->
+            nth j (map VBool bs) (VUint 0) = VBool (nth j bs false)).
+  { intros j Hj. rewrite (nth_indep _ (VUint 0) (VBool false)) by (rewrite map_length; exact Hj).
+    apply (map_nth VBool). }
+  destruct t as [| | | |k|k| | | |]; try discriminate Ht.
+  - pose proof (repr_ro_bitvector zh k n bs 0 Hs Hr Ht) as Hro. rewrite <- map_map in Hro.
+    destruct (get_vals _ n _ k Hwf (view_depth_nc _ Hs I) Hro eq_refl) as [Hl Hget].
+    cbn [has_type] in Ht. apply N.eqb_eq in Ht. fold (lenN bs) in Ht. rewrite Ht.
+    destruct (N.ltb_spec i k) as [Hi|Hi].
+    + rewrite (Hget i Hi), Hnth by (unfold lenN in Ht; lia). reflexivity.
+    + cbn [view_get]. now rewrite (proj2 (N.leb_le k i) Hi).
+  - pose proof (repr_ro_bitlist zh k n bs 0 Hs Hr Ht) as Hro. rewrite <- map_map in Hro.
+    pose proof (length_bits k n bs Hs Ht Hr) as Hll.
+    destruct (get_vals _ n _ (lenN bs) Hwf (view_depth_nc _ Hs I) Hro Hll) as [Hl Hget].
+    destruct (N.ltb_spec i (lenN bs)) as [Hi|Hi].
+    + rewrite (Hget i Hi), Hnth by (unfold lenN in Hi; lia). reflexivity.
+    + cbn [view_get]. now rewrite (check_index_err (TBitlist k) n (lenN bs) i Hll Hi).
+Qed.
+
+(* ---- packed basic elements ---- *)
+Theorem get_packed t w k vs n i :
+  t = TVector (TUint w) k \/ t = TList (TUint w) k ->
+  wf_ty t = true -> small_params t = true -> has_type (VSeq vs) t = true ->
+  repr zh t n (VSeq vs) ->
+  view_get t n i = if i <? lenN vs then OK (GVal (nth (N.to_nat i) vs (VUint 0))) else Err.
+Proof.
+  intros [-> | ->] Hwf Hs Ht Hr.
+  - pose proof (repr_ro_packed_vector zh w k n vs 0 Hwf Hs Hr Ht) as Hro.
+    destruct (get_vals _ n _ k Hwf (view_depth_nc _ Hs I) Hro eq_refl) as [Hl Hget].
+    cbn [has_type] in Ht. apply andb_true_iff in Ht. destruct Ht as [Ht _].
+    apply N.eqb_eq in Ht. fold (lenN vs) in Ht. rewrite Ht.
+    destruct (N.ltb_spec i k) as [Hi|Hi].
+    + now rewrite (Hget i Hi).
+    + cbn [view_get]. now rewrite (proj2 (N.leb_le k i) Hi).
+  - pose proof (repr_ro_packed_list zh w k n vs 0 Hwf Hs Hr Ht) as Hro.
+    pose proof (length_list _ k n vs Hs Ht Hr) as Hll.
+    destruct (get_vals _ n _ (lenN vs) Hwf (view_depth_nc _ Hs I) Hro Hll) as [Hl Hget].
+    destruct (N.ltb_spec i (lenN vs)) as [Hi|Hi].
+    + now rewrite (Hget i Hi).
+    + cbn [view_get]. now rewrite (check_index_err (TList (TUint w) k) n (lenN vs) i Hll Hi).
+Qed.
+
+(* ---- elements of a complex vector / list ---- *)
+Theorem get_elem t e k vs n i :
+  t = TVector e k \/ t = TList e k -> is_basic_elem e = false ->
+  small_params t = true -> has_type (VSeq vs) t = true -> repr zh t n (VSeq vs) ->
+  (forall x, nth_error vs (N.to_nat i) = Some x ->
+             exists m, view_get t n i = OK (GNode e m) /\ repr zh e m x) /\
+  (lenN vs <= i -> view_get t n i = Err).
+Proof.
+  intros Ht0 Hb Hs Ht Hr.
+  pose proof (small_contents_depth _ Hs) as Hd.
+  destruct Ht0 as [-> | ->]; cbv beta iota in Hd.
+  - cbn [has_type] in Ht. apply andb_true_iff in Ht. destruct Ht as [Hlen _].
+    apply N.eqb_eq in Hlen. fold (lenN vs) in Hlen.
+    rewrite repr_vector, Hb in Hr.
+    pose proof (series_length zh _ _ _ Hr) as Hsl. unfold lenN in Hsl.
+    rewrite map_length, cdepth_N in Hsl. fold (lenN vs) in Hsl.
+    split.
+    + intros x Hx.
+      assert (Hi : i < lenN vs).
+      { assert (N.to_nat i < length vs)%nat by (apply nth_error_Some; congruence). unfold lenN. lia. }
+      destruct (series_bottom zh _ _ n (N.to_nat i) (fun m => repr zh e m x) Hr) as (m & Hm & Hrm).
+      { now rewrite nth_error_map, Hx. }
+      rewrite N2Nat.id, cdepth_N in Hm. exists m. split; [|exact Hrm].
+      cbn [view_get]. rewrite (proj2 (N.leb_gt k i)) by lia. rewrite Hb.
+      rewrite get_node_bottom by (rewrite vec_depth; lia). rewrite vec_depth, Hm. reflexivity.
+    + intros Hi. cbn [view_get]. now rewrite (proj2 (N.leb_le k i)) by lia.
+  - pose proof (length_list e k n vs Hs Ht Hr) as Hll.
+    cbn [has_type] in Ht. apply andb_true_iff in Ht. destruct Ht as [Hlen _].
+    apply N.leb_le in Hlen. fold (lenN vs) in Hlen.
+    rewrite repr_list in Hr. destruct Hr as (c & -> & Hr). rewrite Hb in Hr.
+    pose proof (series_length zh _ _ _ Hr) as Hsl. unfold lenN in Hsl.
+    rewrite map_length, cdepth_N in Hsl. fold (lenN vs) in Hsl.
+    split.
+    + intros x Hx.
+      assert (Hi : i < lenN vs).
+      { assert (N.to_nat i < length vs)%nat by (apply nth_error_Some; congruence). unfold lenN. lia. }
+      destruct (series_bottom zh _ _ c (N.to_nat i) (fun m => repr zh e m x) Hr) as (m & Hm & Hrm).
+      { now rewrite nth_error_map, Hx. }
+      rewrite N2Nat.id, cdepth_N in Hm. exists m. split; [|exact Hrm].
+      cbn [view_get]. rewrite (check_index_ok (TList e k) _ (lenN vs) i Hll Hi). cbn [bind].
+      rewrite Hb.
+      rewrite (get_node_bottom_list (TList e k) c _ i (contents_depth (TList e k)))
+        by (try apply list_depth; lia).
+      rewrite Hm. reflexivity.
+    + intros Hi. cbn [view_get].
+      now rewrite (check_index_err (TList e k) _ (lenN vs) i Hll Hi).
+Qed.
+
+(* ---- fields of a container ---- *)
+Lemma rfields_repr_nth : forall fs vs i f x,
+  nth_error fs i = Some f -> nth_error vs i = Some x ->
+  nth_error (rfields_repr zh fs vs) i = Some (fun m => repr zh f m x).
+Proof.
+  induction fs as [|f0 fs IH]; intros [|x0 vs] [|i] f x Hf Hx; try discriminate.
+  - cbn in Hf, Hx. injection Hf as ->. injection Hx as ->. reflexivity.
+  - cbn [rfields_repr nth_error]. now apply IH.
+Qed.
+
+Theorem get_field fs vs n i :
+  small_params (TContainer fs) = true -> small_fields (TContainer fs) = true ->
+  has_type (VCont vs) (TContainer fs) = true -> repr zh (TContainer fs) n (VCont vs) ->
+  (forall f x, nth_error fs (N.to_nat i) = Some f -> nth_error vs (N.to_nat i) = Some x ->
+               exists m, view_get (TContainer fs) n i = OK (GNode f m) /\ repr zh f m x) /\
+  (lenN fs <= i -> view_get (TContainer fs) n i = Err).
+Proof.
+  intros Hs Hf Ht Hr. split.
+  - intros f x Hfi Hxi.
+    destruct (cont_nodes zh fs vs n Hs Hf Ht Hr) as (ms & _ & HF & Hget).
+    destruct (Forall2_nth_l _ _ _ _ _ HF (rfields_repr_nth fs vs _ f x Hfi Hxi)) as (m & Hm & Hrm).
+    exists m. split; [|exact Hrm]. cbn [view_get]. unfold nat_of. rewrite Hfi.
+    specialize (Hget _ m Hm). rewrite N2Nat.id in Hget. now rewrite Hget.
+  - intros Hi. cbn [view_get].
+    replace (nth_error fs (nat_of i)) with (@None ty); [reflexivity|].
+    symmetry. apply nth_error_None. unfold nat_of, lenN in *. lia.
+Qed.
+
+(* ---- unions ---- *)
+Theorem union_spec none opts sel ov n :
+  wf_ty (TUnion none opts) = true -> has_type (VUnion sel ov) (TUnion none opts) = true ->
+  repr zh (TUnion none opts) n (VUnion sel ov) ->
+  union_selector (TUnion none opts) n = OK sel /\
+  match ov with
+  | None => union_value (TUnion none opts) n = OK None
+  | Some x => exists o c, union_value (TUnion none opts) n = OK (Some (o, c)) /\
+                          union_opt none opts sel = Some o /\
+                          has_type x o = true /\ repr zh o c x
+  end.
+Proof.
+  intros Hwf Ht Hr.
+  destruct (union_sel_range none opts sel ov Hwf Ht) as [Hsel Hcnt].
+  rewrite repr_union in Hr. destruct Hr as (c & -> & Hr).
+  destruct (sel_leaf sel ltac:(lia)) as [Hz Hhd].
+  assert (Hus : union_selector (TUnion none opts) (Pair c (Leaf (pad32 [byte_of_N sel]))) = OK sel).
+  { cbn [union_selector]. rewrite Hz, Hhd. cbn [negb].
+    rewrite wrap8_small by lia. now rewrite (proj2 (N.leb_gt _ _) Hsel). }
+  split; [exact Hus|]. unfold union_value. rewrite Hus. cbn [bind].
+  destruct (union_cases zh none opts sel ov c Ht Hr) as [(Hn & -> & _)|(Hn & o & x & -> & Hk & Htx & Hrx)].
+  - apply andb_true_iff in Hn. destruct Hn as [-> Hn]. unfold union_opt. now rewrite Hn.
+  - assert (Hopt : union_opt none opts sel = Some o).
+    { unfold union_opt. destruct none; [|exact Hk]. cbn [andb] in Hn. now rewrite Hn. }
+    exists o, c. rewrite Hopt. auto.
+Qed.
+
+End Getters.
+
+(* ------------------------------------------------------------------------------------ *)
+(** * 10. Reading the whole value back through the getters *)
+
+Definition rv_elems (f : nat) (t : ty) (n : node) (count : N) : res (list val) :=
+  mapM (fun i => do g <- view_get t n (N.of_nat i);
+                 match g with
+                 | GVal v => OK v
+                 | GNode e c => read_val f e c
+                 end) (seq 0 (nat_of count)).
+
+Definition unbool (v : val) : bool := match v with VBool b => b | _ => false end.
+
+Lemma read_val_S f t n :
+  read_val (S f) t n =
+  match t with
+  | TUint _ | TBool | TBytes _ | TRoot => do c <- leaf_chunk n; leaf_val t c
+  | TBitvector k => do vs <- rv_elems f t n k; OK (VBits (map unbool vs))
+  | TBitlist k => do ll <- list_length k n; do vs <- rv_elems f t n ll; OK (VBits (map unbool vs))
+  | TVector _ k => do vs <- rv_elems f t n k; OK (VSeq vs)
+  | TList _ k => do ll <- list_length k n; do vs <- rv_elems f t n ll; OK (VSeq vs)
+  | TContainer fs => do vs <- rv_elems f t n (N.of_nat (length fs)); OK (VCont vs)
+  | TUnion _ _ =>
+    do sel <- union_selector t n;
+    do ov <- union_value t n;
+    match ov with
+    | None => OK (VUnion sel None)
+    | Some (o, c) => do v <- read_val f o c; OK (VUnion sel (Some v))
+    end
+  end.
+Proof. reflexivity. Qed.
+
+Lemma rv_elems_ok f t n count (xs : list val) :
+  length xs = nat_of count ->
+  (forall i x, nth_error xs i = Some x ->
+     exists g, view_get t n (N.of_nat i) = OK g /\
+               match g with GVal v => v = x | GNode e c => read_val f e c = OK x end) ->
+  rv_elems f t n count = OK xs.
+Proof.
+  intros Hl Hall. unfold rv_elems. rewrite <- Hl. apply mapM_Forall2.
+  apply Forall2_seq_nth. intros i x Hx. cbn [Nat.add].
+  destruct (Hall i x Hx) as (g & -> & Hg). cbn [bind]. destruct g; congruence.
+Qed.
+
+Lemma nth_error_nth_some {A} (l : list A) i x d : nth_error l i = Some x -> nth i l d = x.
+Proof. intros H. now apply nth_error_nth. Qed.
+
+Lemma ty_depth_in f fs :
+  In f fs -> (ty_depth f <= fold_right (fun f a => Nat.max (ty_depth f) a) O fs)%nat.
+Proof.
+  induction fs as [|g fs IH]; intros Hin; [contradiction|]. cbn [fold_right].
+  destruct Hin as [->|Hin]; [lia|]. specialize (IH Hin). lia.
+Qed.
+
+Section ReadVal.
+Variable zh : nat -> chunk.
+
+Definition rv_stmt (t : ty) : Prop :=
+  wf_ty t = true -> small_params t = true -> small_fields t = true ->
+  forall v n fuel, has_type v t = true -> repr zh t n v -> (ty_depth t <= fuel)%nat ->
+  read_val fuel t n = OK v.
+
+Lemma rv_uint w : rv_stmt (TUint w).
+Proof.
+  intros Hwf _ _ v nd fuel Ht Hr Hfu. destruct fuel as [|f]; [cbn in Hfu; lia|].
+  dval v Ht. cbn [repr] in Hr. subst nd. cbn [has_type] in Ht. apply N.ltb_lt in Ht.
+  cbn [wf_ty] in Hwf. pose proof (uint_width_le32 w Hwf).
+  rewrite read_val_S. cbn [leaf_chunk bind leaf_val]. do 2 f_equal.
+  rewrite firstn_pad32 by (try apply le_bytes_length; unfold nat_of; lia).
+  rewrite le_val_le_bytes, pow256. unfold nat_of. rewrite N2Nat.id. now apply N.mod_small.
+Qed.
+
+Lemma rv_bool : rv_stmt TBool.
+Proof.
+  intros _ _ _ v nd fuel Ht Hr Hfu. destruct fuel as [|f]; [cbn in Hfu; lia|].
+  dval v Ht. cbn [repr] in Hr. subst nd. destruct b; reflexivity.
+Qed.
+
+Lemma rv_bytes k : rv_stmt (TBytes k).
+Proof.
+  intros Hwf _ _ v nd fuel Ht Hr Hfu. destruct fuel as [|f]; [cbn in Hfu; lia|].
+  dval v Ht. cbn [repr] in Hr. subst nd. cbn [has_type] in Ht. apply N.eqb_eq in Ht.
+  cbn [wf_ty] in Hwf. apply andb_true_iff in Hwf. destruct Hwf as [_ H32]. apply N.leb_le in H32.
+  rewrite read_val_S. cbn [leaf_chunk bind leaf_val]. rewrite (proj2 (N.ltb_ge 32 k) H32).
+  do 2 f_equal. apply firstn_pad32; unfold nat_of; lia.
+Qed.
+
+Lemma rv_root : rv_stmt TRoot.
+Proof.
+  intros _ _ _ v nd fuel Ht Hr Hfu. destruct fuel as [|f]; [cbn in Hfu; lia|].
+  dval v Ht. cbn [repr] in Hr. subst nd. cbn [has_type] in Ht. apply N.eqb_eq in Ht.
+  rewrite read_val_S. cbn [leaf_chunk bind leaf_val]. do 2 f_equal. apply pad32_full. lia.
+Qed.
+
+Lemma unbool_map bs : map unbool (map VBool bs) = bs.
+Proof. rewrite map_map. cbn [unbool]. apply map_id. Qed.
+
+(* all elements are plain values returned by Get *)
+Lemma rv_elems_vals f t n count xs d :
+  length xs = nat_of count ->
+  (forall i, i < count -> view_get t n i = OK (GVal (nth (N.to_nat i) xs d))) ->
+  rv_elems f t n count = OK xs.
+Proof.
+  intros Hl Hget. apply rv_elems_ok; [exact Hl|]. intros i x Hx.
+  assert (Hi : (i < length xs)%nat) by (apply nth_error_Some; congruence).
+  eexists. split; [apply Hget; unfold nat_of in Hl; lia|]. cbv beta iota.
+  rewrite Nat2N.id. now apply nth_error_nth_some.
+Qed.
+
+Lemma rv_bits t : (exists k, t = TBitvector k \/ t = TBitlist k) -> rv_stmt t.
+Proof.
+  intros (k & Hk) Hwf Hs _ v nd fuel Ht Hr Hfu.
+  destruct fuel as [|f]; [destruct Hk as [-> | ->]; cbn in Hfu; lia|].
+  assert (Hv : exists bs, v = VBits bs) by (destruct Hk as [-> | ->]; dval v Ht; eauto).
+  destruct Hv as (bs & ->).
+  assert (Hget : forall i, i < lenN bs ->
+            view_get t nd i = OK (GVal (nth (N.to_nat i) (map VBool bs) (VBool false)))).
+  { intros i Hi. rewrite (get_bit zh t bs nd i Hwf Hs Ht Hr), (proj2 (N.ltb_lt _ _) Hi).
+    now rewrite (map_nth VBool). }
+  assert (Hel : rv_elems f t nd (lenN bs) = OK (map VBool bs)).
+  { apply (rv_elems_vals f t nd (lenN bs) _ (VBool false)); [|exact Hget].
+    rewrite map_length. unfold nat_of, lenN. lia. }
+  rewrite read_val_S. destruct Hk as [-> | ->]; cbv iota.
+  - pose proof Ht as Ht'. cbn [has_type] in Ht'. apply N.eqb_eq in Ht'. fold (lenN bs) in Ht'.
+    rewrite Ht' in Hel. rewrite Hel. cbn [bind]. now rewrite unbool_map.
+  - rewrite (length_bits zh k nd bs Hs Ht Hr). cbn [bind]. rewrite Hel. cbn [bind].
+    now rewrite unbool_map.
+Qed.
+
+Lemma rv_series t e k : t = TVector e k \/ t = TList e k -> rv_stmt e -> rv_stmt t.
+Proof.
+  intros Ht0 IH Hwf Hs Hf v nd fuel Ht Hr Hfu.
+  destruct fuel as [|f]; [destruct Ht0 as [-> | ->]; cbn in Hfu; lia|].
+  assert (Hfe : (ty_depth e <= f)%nat) by (destruct Ht0 as [-> | ->]; cbn [ty_depth] in Hfu; lia).
+  assert (Hv : exists vs, v = VSeq vs) by (destruct Ht0 as [-> | ->]; dval v Ht; eauto).
+  destruct Hv as (vs & ->).
+  assert (Hsub : wf_ty e = true /\ small_params e = true /\ small_fields e = true /\
+                 forallb (fun x => has_type x e) vs = true).
+  { destruct Ht0 as [-> | ->]; cbn [wf_ty small_params small_fields has_type] in *;
+      rewrite ?andb_true_iff in *; tauto. }
+  destruct Hsub as (Hwfe & Hse & Hfe' & Hty).
+  assert (Hel : rv_elems f t nd (lenN vs) = OK vs).
+  { destruct (is_basic_elem e) eqn:Hb.
+    - destruct e; try discriminate Hb.
+      apply (rv_elems_vals f t nd (lenN vs) _ (VUint 0)); [unfold nat_of, lenN; lia|].
+      intros i Hi. rewrite (get_packed zh t w k vs nd i Ht0 Hwf Hs Ht Hr).
+      now rewrite (proj2 (N.ltb_lt _ _) Hi).
+    - apply rv_elems_ok; [unfold nat_of, lenN; lia|]. intros i x Hx.
+      destruct (get_elem zh t e k vs nd (N.of_nat i) Ht0 Hb Hs Ht Hr) as [Hin _].
+      rewrite Nat2N.id in Hin. destruct (Hin x Hx) as (m & Hm & Hrm).
+      exists (GNode e m). split; [exact Hm|]. cbv beta iota.
+      rewrite forallb_forall in Hty.
+      apply IH; auto. apply Hty. eapply nth_error_In; eassumption. }
+  rewrite read_val_S. destruct Ht0 as [-> | ->]; cbv iota.
+  - pose proof Ht as Ht'. cbn [has_type] in Ht'. apply andb_true_iff in Ht'.
+    destruct Ht' as [Ht' _]. apply N.eqb_eq in Ht'. fold (lenN vs) in Ht'.
+    rewrite Ht' in Hel. rewrite Hel. reflexivity.
+  - rewrite (length_list zh e k nd vs Hs Ht Hr). cbn [bind]. rewrite Hel. reflexivity.
+Qed.
+
+Lemma has_type_fields_nth : forall fs vs i f x,
+  has_type_fields fs vs = true -> nth_error fs i = Some f -> nth_error vs i = Some x ->
+  has_type x f = true.
+Proof.
+  induction fs as [|f0 fs IH]; intros [|x0 vs] [|i] f x Ht Hf Hx; try discriminate;
+    cbn [has_type_fields] in Ht; apply andb_true_iff in Ht; destruct Ht as [Ht0 Ht].
+  - cbn in Hf, Hx. injection Hf as ->. injection Hx as ->. exact Ht0.
+  - cbn [nth_error] in Hf, Hx. eapply IH; eassumption.
+Qed.
+
+Lemma rv_cont fs : Forall rv_stmt fs -> rv_stmt (TContainer fs).
+Proof.
+  intros IH Hwf Hs Hf v nd fuel Ht Hr Hfu.
+  destruct fuel as [|f]; [cbn in Hfu; lia|]. cbn [ty_depth] in Hfu.
+  dval v Ht. pose proof (has_type_cont_length fs vs Ht) as Hlen.
+  rewrite read_val_S.
+  assert (Hel : rv_elems f (TContainer fs) nd (N.of_nat (length fs)) = OK vs).
+  { apply rv_elems_ok; [unfold nat_of; lia|]. intros i x Hx.
+    assert (Hi : (i < length fs)%nat) by (rewrite <- Hlen; apply nth_error_Some; congruence).
+    destruct (nth_error fs i) as [fi|] eqn:Hfi; [|apply nth_error_None in Hfi; lia].
+    destruct (get_field zh fs vs nd (N.of_nat i) Hs Hf Ht Hr) as [Hin _].
+    rewrite Nat2N.id in Hin. destruct (Hin fi x Hfi Hx) as (m & Hm & Hrm).
+    exists (GNode fi m). split; [exact Hm|]. cbv beta iota.
+    pose proof (nth_error_In _ _ Hfi) as Hinf.
+    rewrite SizeProofs.has_type_cont in Ht.
+    cbn [wf_ty] in Hwf. apply andb_true_iff in Hwf. destruct Hwf as [_ Hwf].
+    cbn [small_params] in Hs. cbn [small_fields] in Hf. apply andb_true_iff in Hf.
+    destruct Hf as [_ Hf]. rewrite forallb_forall in Hwf, Hs, Hf. rewrite Forall_forall in IH.
+    apply (IH fi Hinf); auto.
+    - eapply has_type_fields_nth; eassumption.
+    - pose proof (ty_depth_in fi fs Hinf). lia. }
+  rewrite Hel. reflexivity.
+Qed.
+
+Lemma union_opt_in none opts sel o : union_opt none opts sel = Some o -> In o opts.
+Proof.
+  unfold union_opt. destruct none; [destruct (sel =? 0); [discriminate|]|];
+    intros H; eapply nth_error_In; exact H.
+Qed.
+
+Lemma rv_union none opts : Forall rv_stmt opts -> rv_stmt (TUnion none opts).
+Proof.
+  intros IH Hwf Hs Hf v nd fuel Ht Hr Hfu.
+  destruct fuel as [|f]; [cbn in Hfu; lia|]. cbn [ty_depth] in Hfu.
+  dval v Ht. destruct (union_spec zh none opts sel v nd Hwf Ht Hr) as [Hsel Hval].
+  rewrite read_val_S, Hsel. cbn [bind].
+  destruct v as [x|].
+  - destruct Hval as (o & c & Hv & Hopt & Htx & Hrx). rewrite Hv. cbn [bind].
+    pose proof (union_opt_in _ _ _ _ Hopt) as Hin.
+    cbn [wf_ty] in Hwf. rewrite !andb_true_iff in Hwf. destruct Hwf as [_ Hwf].
+    cbn [small_params] in Hs. cbn [small_fields] in Hf.
+    rewrite forallb_forall in Hwf, Hs, Hf. rewrite Forall_forall in IH.
+    rewrite (IH o Hin (Hwf o Hin) (Hs o Hin) (Hf o Hin) x c f Htx Hrx); [reflexivity|].
+    pose proof (ty_depth_in o opts Hin). lia.
+  - rewrite Hval. reflexivity.
+Qed.
+
+Theorem read_val_spec : forall t v n fuel,
+  wf_ty t = true -> small_params t = true -> small_fields t = true ->
+  has_type v t = true -> repr zh t n v -> (ty_depth t <= fuel)%nat ->
+  read_val fuel t n = OK v.
+Proof.
+  intros t. induction t using ty_nind; intros v n0 fuel Hwf Hs Hf Ht Hr Hfu.
+  - now apply rv_uint.
+  - now apply rv_bool.
+  - now apply rv_bytes.
+  - now apply rv_root.
+  - apply rv_bits; eauto.
+  - apply rv_bits; eauto.
+  - apply (rv_series (TVector t n) t n); auto. intros ? ? ? ? ? ? ? ? ?. now apply IHt.
+  - apply (rv_series (TList t n) t n); auto. intros ? ? ? ? ? ? ? ? ?. now apply IHt.
+  - apply rv_cont; try assumption. eapply Forall_impl; [|exact H].
+    intros f Hfld ? ? ? ? ? ? ? ? ?. now apply Hfld.
+  - apply rv_union; try assumption. eapply Forall_impl; [|exact H].
+    intros f Hfld ? ? ? ? ? ? ? ? ?. now apply Hfld.
+Qed.
+
+End ReadVal.
+
+(* ------------------------------------------------------------------------------------ *)
+(** * 11. Corollaries: constructed views; any two backings of the same value agree *)
+
+Section Corollaries.
+Variable H : chunk -> chunk -> chunk.
+Variable zh : nat -> chunk.
+Hypothesis Hzh : forall d, zh d = zero_hash H d.
+
+(* a view constructed from a value serializes to the spec encoding and reads back as the value *)
+Theorem roundtrip_model t v n :
+  wf_ty t = true -> small_params t = true -> small_fields t = true -> has_type v t = true ->
+  from_val zh t v = OK n -> lenN (spec_ser t v) < 2 ^ 32 ->
+  ser_node t n = OK (spec_ser t v) /\
+  byte_len t n = OK (lenN (spec_ser t v)) /\
+  (forall fuel, (ty_depth t <= fuel)%nat -> read_val fuel t n = OK v).
+Proof.
+  intros Hwf Hs Hf Ht Hfrom Hl.
+  destruct (from_val_repr H zh Hzh t v Hwf Hs Hf Ht) as (n' & Hn' & Hr).
+  rewrite Hfrom in Hn'. injection Hn' as <-.
+  split; [now apply (ser_node_spec zh)|]. split.
+  - apply (byte_len_spec zh); try assumption.
+    assert (2 ^ 32 < 2 ^ 64) by (apply N.pow_lt_mono_r; lia). lia.
+  - intros fuel Hfu. now apply (read_val_spec zh).
+Qed.
+
+(* Two backing trees of the same value (e.g. the constructed one and the one obtained by
+   deserializing the encoding) are indistinguishable by Serialize, ValueByteLength,
+   HashTreeRoot and the getters. *)
+Theorem repr_agree t v n n' :
+  wf_ty t = true -> small_params t = true -> small_fields t = true -> has_type v t = true ->
+  repr zh t n v -> repr zh t n' v -> lenN (spec_ser t v) < 2 ^ 32 ->
+  ser_node t n' = ser_node t n /\
+  byte_len t n' = byte_len t n /\
+  (forall fuel, (ty_depth t <= fuel)%nat -> read_val fuel t n' = read_val fuel t n) /\
+  (no_bool_seq t = true -> root_of H n' = root_of H n).
+Proof.
+  intros Hwf Hs Hf Ht Hr Hr' Hl.
+  assert (Hl64 : lenN (spec_ser t v) < 2 ^ 64).
+  { assert (2 ^ 32 < 2 ^ 64) by (apply N.pow_lt_mono_r; lia). lia. }
+  rewrite !(ser_node_spec zh t v) by assumption.
+  rewrite !(byte_len_spec zh t v) by assumption.
+  repeat split.
+  - intros fuel Hfu. now rewrite !(read_val_spec zh t v) by assumption.
+  - intros Hnb. now rewrite !(repr_root H zh Hzh t v) by assumption.
+Qed.
+
+End Corollaries.
+
+(* ------------------------------------------------------------------------------------ *)
+(** * 12. Examples: the hypotheses are satisfiable; the model computes what the theorems say *)
+
+Definition c02_ty : ty :=
+  TContainer [TUint 8; TBool; TBytes 3; TRoot; TBitvector 12; TBitlist 300;
+              TVector (TUint 2) 5; TList (TUint 4) 9;
+              TVector (TList (TUint 1) 4) 2;
+              TList (TContainer [TBool; TBitlist 5]) 4;
+              TUnion true [TUint 4; TList (TUint 8) 3];
+              TUnion false [TBool; TRoot]].
+
+Definition c02_val : val :=
+  VCont [VUint 77; VBool true; VBytes [Byte.x01; Byte.x02; Byte.x03]; VBytes (repeat Byte.x05 32);
+         VBits (repeat true 12); VBits (repeat true 9 ++ [false; true]);
+         VSeq [VUint 1; VUint 65535; VUint 3; VUint 4; VUint 5]; VSeq [VUint 7; VUint 8];
+         VSeq [VSeq [VUint 1; VUint 2]; VSeq []];
+         VSeq [VCont [VBool true; VBits [true; false]]; VCont [VBool false; VBits []]];
+         VUnion 2 (Some (VSeq [VUint 9])); VUnion 1 (Some (VBytes (repeat Byte.x07 32)))].
+
+Lemma ex_repr t v :
+  wf_ty t = true -> small_params t = true -> small_fields t = true -> has_type v t = true ->
+  exists n, from_val xzh t v = OK n /\ repr xzh t n v.
+Proof. apply (from_val_repr (fun a b => a) xzh (fun d => eq_refl)). Qed.
+
+(* hypotheses of ser_node_spec, byte_len_spec, read_val_spec, roundtrip_model, repr_agree *)
+Example ex_c02_hyps :
+  wf_ty c02_ty = true /\ small_params c02_ty = true /\ small_fields c02_ty = true /\
+  no_bool_seq c02_ty = true /\
+  has_type c02_val c02_ty = true /\ lenN (spec_ser c02_ty c02_val) = 162 /\
+  (ty_depth c02_ty <= 4)%nat /\
+  exists n, from_val xzh c02_ty c02_val = OK n /\ repr xzh c02_ty n c02_val.
+Proof.
+  repeat (split; [vm_compute; (reflexivity || lia)|]).
+  apply ex_repr; reflexivity.
+Qed.
+
+(* the model, run: Serialize, ValueByteLength and the getters on the constructed view *)
+Example ex_c02_run :
+  match from_val xzh c02_ty c02_val with
+  | OK n => ser_node c02_ty n = OK (spec_ser c02_ty c02_val) /\
+            byte_len c02_ty n = OK 162 /\
+            read_val 4 c02_ty n = OK c02_val /\
+            read_val 3 c02_ty n = Panic
+  | _ => False
+  end.
+Proof. vm_compute. repeat split; reflexivity. Qed.
+
+(* hypotheses of length_bits / get_bit *)
+Example ex_get_bit_hyps :
+  let t := TBitlist 300 in let bs := repeat true 9 ++ [false; true] in
+  wf_ty t = true /\ small_params t = true /\ has_type (VBits bs) t = true /\
+  exists n, repr xzh t n (VBits bs).
+Proof.
+  cbv zeta. repeat (split; [reflexivity|]).
+  destruct (ex_repr (TBitlist 300) (VBits (repeat true 9 ++ [false; true]))) as (n & _ & Hr);
+    try reflexivity. eauto.
+Qed.
+
+(* hypotheses of length_list / get_packed *)
+Example ex_get_packed_hyps :
+  let t := TList (TUint 4) 9 in let vs := [VUint 7; VUint 8] in
+  (t = TVector (TUint 4) 9 \/ t = TList (TUint 4) 9) /\
+  wf_ty t = true /\ small_params t = true /\ has_type (VSeq vs) t = true /\
+  exists n, repr xzh t n (VSeq vs).
+Proof.
+  cbv zeta. split; [now right|]. repeat (split; [reflexivity|]).
+  destruct (ex_repr (TList (TUint 4) 9) (VSeq [VUint 7; VUint 8])) as (n & _ & Hr);
+    try reflexivity. eauto.
+Qed.
+
+(* hypotheses of get_elem *)
+Example ex_get_elem_hyps :
+  let e := TList (TUint 1) 4 in let t := TVector e 2 in
+  let vs := [VSeq [VUint 1; VUint 2]; VSeq []] in
+  (t = TVector e 2 \/ t = TList e 2) /\ is_basic_elem e = false /\
+  small_params t = true /\ has_type (VSeq vs) t = true /\
+  (exists n, repr xzh t n (VSeq vs)) /\ nth_error vs (N.to_nat 1) = Some (VSeq []).
+Proof.
+  cbv zeta. split; [now left|]. repeat (split; [reflexivity|]). split; [|reflexivity].
+  destruct (ex_repr (TVector (TList (TUint 1) 4) 2) (VSeq [VSeq [VUint 1; VUint 2]; VSeq []]))
+    as (n & _ & Hr); try reflexivity. eauto.
+Qed.
+
+(* hypotheses of get_field *)
+Example ex_get_field_hyps :
+  small_params c02_ty = true /\ small_fields c02_ty = true /\
+  has_type c02_val c02_ty = true /\ (exists n, repr xzh c02_ty n c02_val) /\
+  nth_error [TUint 8; TBool] (N.to_nat 1) = Some TBool.
+Proof.
+  repeat (split; [reflexivity|]). split; [|reflexivity].
+  destruct ex_c02_hyps as (_ & _ & _ & _ & _ & _ & _ & n & _ & Hr). eauto.
+Qed.
+
+(* hypotheses of union_spec *)
+Example ex_union_hyps :
+  let t := TUnion true [TUint 4; TList (TUint 8) 3] in
+  wf_ty t = true /\ has_type (VUnion 2 (Some (VSeq [VUint 9]))) t = true /\
+  has_type (VUnion 0 None) t = true /\
+  (exists n, repr xzh t n (VUnion 2 (Some (VSeq [VUint 9])))) /\
+  (exists n, repr xzh t n (VUnion 0 None)).
+Proof.
+  cbv zeta. repeat (split; [reflexivity|]). split.
+  - destruct (ex_repr (TUnion true [TUint 4; TList (TUint 8) 3]) (VUnion 2 (Some (VSeq [VUint 9]))))
+      as (n & _ & Hr); try reflexivity. eauto.
+  - destruct (ex_repr (TUnion true [TUint 4; TList (TUint 8) 3]) (VUnion 0 None))
+      as (n & _ & Hr); try reflexivity. eauto.
+Qed.
+
+(* the size premise of Serialize is necessary: WriteOffset panics at 2^32 (model level) *)
+Example ex_write_offset_panics :
+  write_offset (2 ^ 32 - 4) 4 = Panic /\ write_offset 8 (2 ^ 32) = Panic /\
+  write_offset 8 4 = OK (12, le_bytes 4 12).
+Proof. vm_compute. repeat split; reflexivity. Qed.
+
+(* the model, run through Deserialize: the decoded view has the same encoding, byte length and
+   component values as the constructed one (a concrete check only; the general statement is
+   [repr_agree] together with the decoding theorem of DecodeProofs.v) *)
+Example ex_c02_decode_run :
+  match view_deserialize xzh c02_ty (spec_ser c02_ty c02_val) with
+  | OK n => ser_node c02_ty n = OK (spec_ser c02_ty c02_val) /\
+            byte_len c02_ty n = OK 162 /\
+            read_val 4 c02_ty n = OK c02_val
+  | _ => False
+  end.
+Proof. vm_compute. repeat split; reflexivity. Qed.
